@@ -30,8 +30,8 @@ RULE = (
     "(file bytes digest, encoding, scenario digest)."
 )
 TIERS = {
-    "quick": {"runs": 150, "budget_s": 45, "min_runs": 20, "run_timeout_s": 240},
-    "thorough": {"runs": 10000, "budget_s": 800, "min_runs": 400, "run_timeout_s": 600},
+    "quick": {"runs": 150, "budget_s": 45, "min_runs": 4, "run_timeout_s": 240},
+    "thorough": {"runs": 10000, "budget_s": 800, "min_runs": 40, "run_timeout_s": 600},
 }
 COMPONENTS_REAL = [
     "sqlfluff get_encoding (chardet), load_raw_file_and_config (errors=backslashreplace), render_string newline normalisation, generate_source_patches/fix_string, persist_tree/_safe_create_replace_file",
